@@ -545,11 +545,232 @@ def inject(rng, src, kind):
         return done(s, insert(lines, s, new), M_RESERVED, label)
     if kind == "type":
         s = pick(prefer=deep)
-        name, new, msg, label = rng.choice(TYPE_INJECTIONS)
-        v = fresh(names, rng)
-        res["kind"] = "type:" + name
-        return done(s, insert(lines, s, [l % {"v": v} for l in new]), msg, label)
+        if rng.random() < 0.25:
+            name, new, msg, label = rng.choice(TYPE_INJECTIONS)
+            v = fresh(names, rng)
+            res["kind"] = "type:" + name
+            return done(s, insert(lines, s, [l % {"v": v} for l in new]), msg, label)
+        c = rng.choice([c for c in cells() if not c["accept"]])
+        res["kind"] = "type:" + c["name"].split(":")[0]
+        res["cell"] = c["name"]
+        return done(s, insert(lines, s, cell_lines(c, names, rng)), c["message"], c["label"])
     raise ValueError(kind)
+
+
+# ----------------------------------------------------------------------------------------
+# stream D: the typing matrix.  Every static type (literal and declared; null also as an
+# uninitialised `make` and as the result of a function without `return`) x every method of
+# every family, every operator / condition / index / typed-argument rule x every static
+# operand type.  The expected verdict is computed here from the documented families
+# (docs/STRINGS.md, ARRAYS.md, NUMBERS.md, PROCESS_EXECUTION.md) and the operand rules of the
+# property statement — not from the checker or the model.
+
+TYPES = ["number", "string", "boolean", "array", "null", "process_command", "process_result"]
+DYN = "dynamic"
+
+METHODS = {
+    "string": {"len": [], "slice": ["0", "1"], "to_uppercase": [], "to_lowercase": [], "find": ['"a"'],
+               "replace": ['"a"', '"b"'], "trim": [], "to_number": [], "split": ['","']},
+    "array": {"len": [], "push": ["1"], "pop": [], "reverse": [], "join": ['","']},
+    "number": {"abs": [], "sqrt": [], "floor": [], "ceil": [], "round": []},
+    "process_command": {"arg": ['"a"'], "cwd": ['"/tmp"'], "env": ['"K"', '"V"'], "stdin_text": ['"t"'], "stdin_inherit": [],
+                        "stdin_null": [], "stdout_capture": [], "stdout_inherit": [], "stdout_null": [], "stderr_capture": [],
+                        "stderr_inherit": [], "stderr_null": [], "timeout_ms": ["5"], "run": []},
+    "process_result": {"success": [], "exit_code": [], "stdout": [], "stderr": []},
+    "boolean": {}, "null": {},
+}
+FAMILY_ORDER = ["string", "array", "number", "process_command", "process_result"]
+LITERAL = {"number": "7", "string": '"s"', "boolean": "true", "array": "[1, 2]", "null": "null",
+           "process_command": 'command("true")', "process_result": 'command("true").run()'}
+
+
+def forms(t):
+    """ways to write a value whose static type is t: (setup lines, expression, form name); `@n` = fresh names"""
+    if t == DYN:
+        return [(["make @1 get [1]"], "@1[0]", "element")]
+    out = [([], "(%s)" % LITERAL[t], "literal"), (["make @1 get %s" % LITERAL[t]], "@1", "declared")]
+    if t == "null":
+        out.append((["make @1"], "@1", "uninitialised"))
+        out.append((["do @1() start end"], "@1()", "no-return"))
+    if t == "process_result":
+        out.append((["make @2 get command(\"true\")", "make @1 get @2.run()"], "@1", "declared-from-var"))
+    return out
+
+
+def plural(n):
+    return "" if n == 1 else "s"
+
+
+OP_LABEL = {"add": "Dis expression type no be number or string", "minus": "Dis expression type no be number",
+            "times": "Dis expression type no be number", "divide": "Dis expression type no be number",
+            "mod": "Dis expression type no be number", "and": "Dis expression type no be boolean",
+            "or": "Dis expression type no be boolean", "na": "Dis expression type no be number, string, or boolean",
+            "pass": "Dis expression type no be number, string, or boolean",
+            "small pass": "Dis expression type no be number, string, or boolean"}
+
+
+def op_ok(op, l, r):
+    nd = lambda t: t in ("null", DYN)
+    if op == "add":
+        return l in ("string", DYN) or r in ("string", DYN) or (l == "number" and r == "number")
+    if op in ("minus", "times", "divide", "mod"):
+        return l in ("number", DYN) and r in ("number", DYN)
+    if op in ("na", "pass", "small pass"):
+        return (l == r and l in ("number", "string", "boolean")) or nd(l) or nd(r)
+    return (l == "boolean" and r == "boolean") or nd(l) or nd(r)
+
+
+def matrix_cells():
+    cells = []
+
+    def cell(name, lines, accept, message=None, label=None):
+        cells.append({"name": name, "lines": lines, "accept": accept, "message": message, "label": label})
+
+    # receiver type x method
+    names = []
+    for fam in FAMILY_ORDER:
+        for m in METHODS[fam]:
+            if m not in names:
+                names.append(m)
+    for t in TYPES:
+        for fi, (setup, e, form) in enumerate(forms(t)):
+            for fam in FAMILY_ORDER:
+                for m, args in METHODS[fam].items():
+                    if m in METHODS[t] and fam != t:
+                        continue                      # same name in the receiver's own family: covered there
+                    stmt = "shout(%s.%s(%s))" % (e, m, ", ".join(args))
+                    nm = "method:%s/%s.%s:%s" % (t, fam, m, form)
+                    if fam == t:
+                        if t == "process_command" and form == "literal" and m != "run":
+                            cell(nm, setup + [stmt], False, M_TYPE, "Dis method need variable or array slot receiver")
+                        else:
+                            cell(nm, setup + [stmt], True)
+                    else:
+                        cell(nm, setup + [stmt], False, M_UNDECL, "Method `%s` no dey for %s type" % (m, t))
+            cell("method:%s/unknown:%s" % (t, form), setup + ["shout(%s.nosuch())" % e], False, M_UNDECL,
+                 "Method `nosuch` no dey for %s type" % t)
+    # arity of every method on its own family (declared receiver)
+    for fam in FAMILY_ORDER:
+        for m, args in METHODS[fam].items():
+            n = len(args)
+            cell("method-arity:%s.%s" % (fam, m), ["make @1 get %s" % LITERAL[fam], "shout(@1.%s(%s))" % (m, ", ".join(args + ["0"]))],
+                 False, M_ARITY, "Method `%s` dey expect %d argument%s but na %d dey here" % (m, n, plural(n), n + 1))
+    # dynamic receiver: any method name with an argument count that some family accepts is a run-time matter
+    dsetup, de, _ = forms(DYN)[0]
+    for m in names:
+        ars = sorted(set(len(METHODS[f][m]) for f in FAMILY_ORDER if m in METHODS[f]))
+        for k in range(0, 4):
+            stmt = "shout(%s.%s(%s))" % (de, m, ", ".join(["0"] * k))
+            if k in ars:
+                cell("method:dynamic.%s/%d" % (m, k), dsetup + [stmt], True)
+            else:
+                cell("method:dynamic.%s/%d" % (m, k), dsetup + [stmt], False, M_ARITY, "Method `%s` dey expect" % m)
+    cell("method:dynamic.unknown", dsetup + ["shout(%s.nosuch(1, 2))" % de], True)
+
+    def two(l, r, i):
+        fl, fr = forms(l), forms(r)
+        sl, el, _ = fl[i % len(fl)]
+        sr, er, _ = fr[(i // 2) % len(fr)]
+        sr = [x.replace("@1", "@3").replace("@2", "@4") for x in sr]
+        er = er.replace("@1", "@3").replace("@2", "@4")
+        return sl + sr, el, er
+
+    # binary operators
+    i = 0
+    for op in OP_LABEL:
+        for l in TYPES + [DYN]:
+            for r in TYPES + [DYN]:
+                i += 1
+                setup, el, er = two(l, r, i)
+                stmt = "shout(%s %s %s)" % (el, op, er)
+                if op_ok(op, l, r):
+                    cell("op:%s %s %s" % (l, op, r), setup + [stmt], True)
+                else:
+                    cell("op:%s %s %s" % (l, op, r), setup + [stmt], False, M_TYPE, OP_LABEL[op])
+    # unary operators, conditions
+    for t in TYPES + [DYN]:
+        for fi, (setup, e, form) in enumerate(forms(t)):
+            ok_bool = t in ("boolean", "null", DYN)
+            ok_num = t in ("number", DYN)
+            cell("not:%s:%s" % (t, form), setup + ["shout(not %s)" % e], ok_bool, M_TYPE, "Dis expression type no be boolean")
+            cell("neg:%s:%s" % (t, form), setup + ["shout(minus %s)" % e], ok_num, M_TYPE, "Dis expression type no be number")
+            cell("if:%s:%s" % (t, form), setup + ["if to say (%s) start end" % e], ok_bool, M_TYPE, "Dis expression no be boolean")
+            cell("loop:%s:%s" % (t, form), setup + ["jasi (%s) start comot end" % e], ok_bool, M_TYPE, "Dis expression no be boolean")
+    # indexing: base x index
+    i = 0
+    for b in TYPES + [DYN]:
+        for x in TYPES + [DYN]:
+            i += 1
+            setup, eb, ex = two(b, x, i)
+            okb, okx = b in ("array", DYN), x in ("number", DYN)
+            label = "Dis expression type no be array" if not okb else "Dis index type no be number"
+            cell("index:%s[%s]" % (b, x), setup + ["shout(%s[%s])" % (eb, ex)], okb and okx, M_TYPE, label)
+            sx, ex2, _ = forms(x)[i % len(forms(x))]
+            sx = [y.replace("@1", "@3").replace("@2", "@4") for y in sx]
+            ex2 = ex2.replace("@1", "@3").replace("@2", "@4")
+            base = (["make @5 get [[1]]"], "@5[0]") if b == DYN else (["make @5 get %s" % LITERAL[b]], "@5")
+            cell("index-assign:%s[%s]" % (b, x), base[0] + sx + ["%s[%s] get 0" % (base[1], ex2)], okb and okx, M_TYPE, label)
+    # typed arguments of built-ins
+    for t in TYPES + [DYN]:
+        for fi, (setup, e, form) in enumerate(forms(t)):
+            oks, okn = t in ("string", DYN), t in ("number", DYN)
+            cell("arg:join(%s):%s" % (t, form), setup + ["shout([1].join(%s))" % e], oks, M_TYPE,
+                 "Method `join` dey expect string but na %s dey here" % t)
+            cell("arg:command(%s):%s" % (t, form), setup + ["shout(typeof(command(%s)))" % e], oks, M_TYPE,
+                 "Function `command` dey expect string")
+            pre = ['make @6 get command("true")']
+            cell("arg:cwd(%s):%s" % (t, form), pre + setup + ["@6.cwd(%s)" % e], oks, M_TYPE,
+                 "Method `cwd` dey expect string but na %s dey here" % t)
+            cell("arg:env(%s):%s" % (t, form), pre + setup + ["@6.env(%s, \"v\")" % e], oks, M_TYPE,
+                 "Method `env` dey expect string but na %s dey here" % t)
+            cell("arg:timeout_ms(%s):%s" % (t, form), pre + setup + ["@6.timeout_ms(%s)" % e], okn, M_TYPE,
+                 "Method `timeout_ms` dey expect number but na %s dey here" % t)
+    for c in cells:
+        if c["accept"]:
+            c["message"] = c["label"] = None
+    return cells
+
+
+_CELLS = []
+
+
+def cells():
+    if not _CELLS:
+        _CELLS.extend(matrix_cells())
+    return _CELLS
+
+
+def cell_lines(cell, names, rng):
+    sub = {}
+    out = []
+    for l in cell["lines"]:
+        for k in re.findall(r"@\d", l):
+            if k not in sub:
+                sub[k] = fresh(names, rng)
+        for k, v in sub.items():
+            l = l.replace(k, v)
+        out.append(l)
+    return out
+
+
+def guarded(lines):
+    """well-typed cells are checked statically but never run (no process is spawned, no run-time error)"""
+    return ["if to say (false) start"] + ["  " + l for l in lines] + ["end"]
+
+
+def enrich(rng, src, k):
+    """adds k well-typed cells of the matrix to a well-formed program, at random statement slots"""
+    good = [c for c in cells() if c["accept"]]
+    used = []
+    for _ in range(k):
+        lines, items = scan(src)
+        sl, _at = slots(lines, items)
+        s = rng.choice(sl)
+        c = rng.choice(good)
+        names = all_names(lines) | set(BUILTINS) | set(KEYWORDS)
+        src = "\n".join(insert(lines, s, guarded(cell_lines(c, names, rng)))) + "\n"
+        used.append(c["name"])
+    return src, used
 
 
 # ----------------------------------------------------------------------------------------
@@ -687,8 +908,23 @@ def build_cases(env, n):
         if exp:
             e.update(message=exp[0], label=exp[1], allowed={M_TYPE})
         cases.append({"id": "c%d" % i, "stream": "corpus", "key": key, "source": src, "expect": e})
+    # the whole typing matrix, every run
+    for i, c in enumerate(cells()):
+        names = set(BUILTINS) | set(KEYWORDS)
+        e = {"accept": c["accept"]}
+        if not c["accept"]:
+            e.update(message=c["message"], label=c["label"], allowed=set())
+        cases.append({"id": "m%d" % i, "stream": "matrix", "kind": c["name"], "source": "\n".join(guarded(cell_lines(c, names, rng))) + "\n",
+                      "expect": e})
+    stats["matrix_cells"] = len(cells())
+    stats["matrix_accepting"] = sum(1 for c in cells() if c["accept"])
+    stats["enriched_with"] = {}
     for i in range(n):
         src, st = gen_program(rng)
+        src, used = enrich(rng, src, 2)
+        for u in used:
+            fam = u.split(":")[0] + ":" + u.split(":")[1].split("/")[0].split(".")[0].split(" ")[0].split("[")[0].split("(")[0]
+            stats["enriched_with"][fam] = stats["enriched_with"].get(fam, 0) + 1
         for k, v in st.items():
             stats["gen"][k] = stats["gen"].get(k, 0) + v
         cases.append({"id": "w%d" % i, "stream": "wellformed", "source": src, "expect": {"accept": True}})
@@ -752,7 +988,7 @@ def correspond(env, searching=False, model=True):
     failures, disagreements, samples = [], [], []
     nontrivial = set()
     evaluations = 0
-    accepted_wf = rejected_inj = compared = 0
+    accepted_wf = rejected_inj = compared = matrix_ok = 0
     shard = 1000
     for s0 in range(0, len(cases), shard):
         part = cases[s0:s0 + shard]
@@ -780,6 +1016,9 @@ def correspond(env, searching=False, model=True):
             elif c["stream"] == "injected":
                 rejected_inj += 1
                 nontrivial.add(common.chash(c["source"]))
+            elif c["stream"] == "matrix":
+                matrix_ok += 1
+                nontrivial.add(common.chash(c["kind"]))
             if c["stream"] == "injected" and len(samples) < 5 and evaluations % 211 == 0:
                 samples.append({"kind": c["kind"], "context": c["context"], "expected": [c["expect"]["message"], c["expect"]["label"]],
                                 "diags": [(x["message"], x["label"]) for x in (diag_tuple(y) for y in r["diags"]) if x["severity"] == "error"]})
@@ -796,7 +1035,9 @@ def correspond(env, searching=False, model=True):
         "extra": {"wellformed_accepted": accepted_wf, "injections_rejected_as_expected": rejected_inj, "compared_with_model": compared,
                   "injection_kinds": stats["kinds"], "injection_contexts": dict(sorted(stats["contexts"].items(), key=lambda kv: -kv[1])[:25]),
                   "injections_in_function_inside_loop": stats["fn_in_loop_injections"], "no_position_for_kind": stats["no_position"],
-                  "generator_stats": stats["gen"], "corpus_cases": len(CORPUS)},
+                  "generator_stats": stats["gen"], "corpus_cases": len(CORPUS),
+                  "matrix_cells": stats.get("matrix_cells"), "matrix_cells_well_typed": stats.get("matrix_accepting"),
+                  "matrix_cells_as_expected": matrix_ok, "wellformed_enriched_with": stats.get("enriched_with")},
     }
 
 
